@@ -15,7 +15,8 @@ EXPLANATION = (
     "queues_by_prio literal, and the list of queues drained in a round is in ascending Priority.value (QUERY first).  (2) "
     "priority-pool: the shared pool's queue list is [query, interactive] (map taken from the enqueue chains, C16).  (3) queues "
     "are appended at the tail and scanned from the head; the only removals are the jobs handled in this round (deferred "
-    "to_remove list drained after the scan).  (4) a job is left waiting only through the `break` taken when "
+    "to_remove list drained after the scan); in priority-pool a job taken from a queue never goes back to the tail (no append / extend / "
+    "insert(i != 0) of a value taken from a queue, no rotate / sort / reverse); arrivals reach the policy in the call and order in which they came.  (4) a job is left waiting only through the `break` taken when "
     "get_pool_with_max_avail_ram returned -1; that helper returns an index iff some pool has free CPU > 0 and free RAM > 0 (it "
     "returns the pool with most free RAM among those), scanning all pools.  (5) Suspend objects are constructed only in the "
     "priority scheduler (and the REST decoder).  (6) the suspension block runs only while a query job is waiting; a container is "
